@@ -13,5 +13,6 @@ PROPERTIES
   T_NeverForeignRead
   T_ViewsAgree
   T_QueriesReadOnly
+  T_BackfillReportsPostGaps
 CONSTRAINT Finished
 CHECK_DEADLOCK FALSE
